@@ -165,6 +165,64 @@ fn check_data_delivery<M: ConvexCellMarker + 'static>(
     let fs = integ.compute_face_integrals_sym_with_data::<u64, FaceRecD>(&data);
     same("sym-face-integrals", e, &fs, faces_sym);
     e.transitions += 2;
+    // re-entrant downstream integrals (data = the integrator itself): fed exactly what a plain integral is fed, and the
+    // nested calls return what they return at top level
+    // (cost: every face integral computes all integrals of its neighbour twice; small states under every mask, larger
+    // states when every cell is constructed)
+    if n <= 5 || (n <= 20 && integ.cells_iter().count() == n) {
+        let refs: Vec<&VoronoiIntegrator<M>> = vec![integ; n];
+        let want = |own: usize, right: Option<usize>| reentry_target(integ, own, right).map_or(0, probe_cell);
+        e.transitions += 3;
+        match guarded(|| integ.compute_face_integrals_with_data::<&VoronoiIntegrator<M>, ReentFace<M>>(&refs)) {
+            Err(p) => e.issue("reentrant-face-integral-panics", case, format!("[{}] {}", route, p.msg), rp()),
+            Ok(rf) => {
+                if rf.len() != faces.len() {
+                    e.issue("reentrant-face-integrals-count", case, format!("[{}] {} vs {}", route, rf.len(), faces.len()), rp());
+                } else {
+                    for (x, y) in rf.iter().zip(faces.iter()) {
+                        let (r, q) = (&x.integral().rec, y.integral());
+                        if x.left() != y.left() || x.right() != y.right() || r.plane_idx != q.plane_idx || r.tris != q.tris || r.area.to_bits() != q.area.to_bits() || vec_bits(r.centroid) != vec_bits(q.centroid) || r.max_offplane.to_bits() != q.max_offplane.to_bits() || !r.apex_ok {
+                            e.issue("reentrant-face-integral-fed-differently", case, format!("[{}] face (left {}, right {:?}): a face integral that calls back into the library on another cell is fed {} triangles, area {:e}, off-plane {:e}; the plain integral {} triangles, area {:e}", route, x.left(), x.right(), r.tris, r.area, r.max_offplane, q.tris, q.area), rp());
+                            break;
+                        }
+                        let w = want(x.left(), x.right());
+                        if x.integral().probe_init != w || (r.tris > 0 && x.integral().probe_collect != w) {
+                            e.issue("nested-call-result-differs", case, format!("[{}] face (left {}, right {:?}): integrals of another cell computed from inside init/collect differ from the same call at top level", route, x.left(), x.right()), rp());
+                            break;
+                        }
+                    }
+                }
+            }
+        }
+        match guarded(|| integ.compute_face_integrals_sym_with_data::<&VoronoiIntegrator<M>, ReentFace<M>>(&refs)) {
+            Err(p) => e.issue("reentrant-face-integral-panics", case, format!("[{}] sym: {}", route, p.msg), rp()),
+            Ok(rf) => {
+                if rf.len() != faces_sym.len() || rf.iter().zip(faces_sym.iter()).any(|(x, y)| x.left() != y.left() || x.right() != y.right() || x.integral().rec.area.to_bits() != y.integral().area.to_bits() || x.integral().rec.tris != y.integral().tris) {
+                    e.issue("reentrant-face-integral-fed-differently", case, format!("[{}] symmetric variant: {} results vs {}", route, rf.len(), faces_sym.len()), rp());
+                }
+            }
+        }
+        match guarded(|| integ.compute_cell_integrals_with_data::<&VoronoiIntegrator<M>, ReentCell<M>>(&refs)) {
+            Err(p) => e.issue("reentrant-cell-integral-panics", case, format!("[{}] {}", route, p.msg), rp()),
+            Ok(rc) => {
+                if rc.len() != cells.len() {
+                    e.issue("reentrant-cell-integrals-count", case, format!("[{}] {} vs {}", route, rc.len(), cells.len()), rp());
+                } else {
+                    for (x, y) in rc.iter().zip(cells.iter()) {
+                        if x.rec.cell_idx != y.cell_idx || x.rec.tets != y.tets || !x.rec.apex_ok || x.rec.m.iter().zip(y.m.iter()).any(|(p, q)| p.to_bits() != q.to_bits()) {
+                            e.issue("reentrant-cell-integral-fed-differently", case, format!("[{}] cell {}: {} tetrahedra, volume {:e}; plain integral {} tetrahedra, volume {:e}", route, y.cell_idx, x.rec.tets, x.rec.m[0], y.tets, y.m[0]), rp());
+                            break;
+                        }
+                        let w = want(y.cell_idx, None);
+                        if x.probe_init != w || (x.rec.tets > 0 && x.probe_collect != w) {
+                            e.issue("nested-call-result-differs", case, format!("[{}] cell {}: integrals of another cell computed from inside init/collect differ from the same call at top level", route, y.cell_idx), rp());
+                            break;
+                        }
+                    }
+                }
+            }
+        }
+    }
     // single-cell entry points
     for c in integ.cells_iter() {
         let r = c.compute_cell_integral::<u64, CellRecD>(datum(c.idx));
